@@ -84,9 +84,13 @@ class FFTProxy:
         for k in range(n):
             kk = k if k < (n + 1) // 2 else k - n
             a[k] = SReal(K.realval(kk) / n)
-        a = SymND(a, _np.float64)
         if isinstance(d, _u.Quantity):
-            return a / d
+            # numpy: results * (1.0 / (n * d)); here the integer bins k' times 1/(n*d), as a Quantity
+            b = _np.empty(n, dtype=object)
+            for k in range(n):
+                b[k] = SInt(k if k < (n + 1) // 2 else k - n)
+            return b * (1 / (n * d))
+        a = SymND(a, _np.float64)
         if isinstance(d, (int, float)) and d == 1:
             return a
         return a / d
